@@ -65,16 +65,17 @@ static void run() {
     auto &a = vp::args();
     size_t maxcap = a.thorough() ? 6 : 4;
     vp::stats().rule = vp::fmt("enum: closure of all (implementation state, model queue) pairs for capacities 1..%zu over put(1), put(2), get, clear, override on/off "
-                               "for octet_ring and for uint32_t/int16_t/double rings instantiated from the macros (the double ring carries negative and fractional values); all observers and both iterators after every transition; scripted wrap/evict/clear phases at every capacity 5..300 (thorough 1100), 2^9/2^10/2^12 +-1, 255..257, 65535..65537, 70000 (thorough: up to 200000)", maxcap);
+                               "for octet_ring and for uint32_t/int16_t/double/`uint8_t *` rings instantiated from the macros (the double ring carries negative and fractional values); all observers and both iterators after every transition; scripted wrap/evict/clear phases at every capacity 5..300 (thorough 1100), 2^9/2^10/2^12 +-1, 255..257, 65535..65537, 70000 (thorough: up to 200000)", maxcap);
     vp::stats().exhaustive = true;
     unsigned idx = 0;
-    for (int type = 0; type < 4; type++)
+    for (int type = 0; type < 5; type++)
         for (size_t cap = 1; cap <= maxcap; cap++) {
             if (idx++ % a.nshards != a.shard) continue;
             if (type == 0) explore(C19_API(octet_ring, uint8_t), 0, cap);
             if (type == 1) explore(C19_API(u32_ring, uint32_t), 1, cap);
             if (type == 2) explore(C19_API(s16_ring, int16_t), 2, cap);
             if (type == 3) explore(C19_API(f64_ring, double), 3, cap);
+            if (type == 4) explore(C19_API(ptr_ring, uint8_t *), 4, cap);
         }
     large_capacities(a.thorough());
 }
@@ -86,7 +87,7 @@ static void large_capacities(bool thorough) {
     for (size_t c = 5; c <= (thorough ? 1100u : 300u); c++) if (c < 255 || c > 257) caps.push_back(c);   // every capacity, not only the powers of two and their neighbours
     for (size_t c : {511u, 512u, 513u, 1023u, 1024u, 1025u, 4095u, 4096u, 4097u}) caps.push_back(c);
     if (thorough) { caps.push_back(131072); caps.push_back(200000); }
-    for (int type = 0; type < 4; type++) for (size_t cap : caps) {
+    for (int type = 0; type < 5; type++) for (size_t cap : caps) {
         if (idx++ % a.nshards != a.shard) continue;
         Case c{type, cap, {}, {}};
         c.phases = {{PUT, cap - cap / 70}, {GET, cap - cap / 35}, {PUT, cap / 50 + 3}, {OVR_ON, 1}, {PUT, cap + 7}, {GET, 5}, {OVR_OFF, 1}, {PUT, 9}, {CLEAR, 1}, {PUT, 3}, {GET, 4}};
